@@ -14,6 +14,7 @@ import (
 	"sort"
 	"strconv"
 	"strings"
+	"sync"
 	"sync/atomic"
 	"testing/synctest"
 	"time"
@@ -270,10 +271,54 @@ func (k *Kernel) admit(w *waiter) {
 }
 
 // NewEvent builds an event for the calling goroutine, classifying its stack.
+// An I/O event also carries the flags of the window its goroutine is in (see NoteYield), so that the
+// classification does not hinge on function names alone.
 func NewEvent(kind, site, id string, skip int) *Event {
 	actor, flags := stackInfo(skip + 1)
-	return &Event{Kind: kind, Site: site, ID: id, Actor: actor, Flags: flags, G: goid()}
+	g := goid()
+	if kind == "read" || kind == "write" || kind == "exec" || (kind == "yield" && site == "exec.start") {
+		if w, ok := windows.Load(g); ok {
+			flags |= w.(Flags)
+		}
+	}
+	return &Event{Kind: kind, Site: site, ID: id, Actor: actor, Flags: flags, G: g}
 }
+
+// windows: goroutine id -> flags of the activity window the goroutine is in, derived from the yield
+// points alone: between ctl.tick and ctl.cycle.end a goroutine performs a control cycle (FUpdate), between
+// a cycle's end (or ctl.done) and the next tick whatever it writes is the hand-back (FRestore), between
+// rpm.tick and rpm.poll.end it takes an RPM sample, between mon.tick and mon.poll.end it polls a sensor.
+var windows sync.Map
+
+// NoteYield is called by the world at every yield point, before the yield event is built.
+func NoteYield(site string) {
+	var set, clear Flags
+	switch site {
+	case "ctl.tick":
+		set, clear = FUpdate, FRestore
+	case "ctl.cycle.end", "ctl.done":
+		set, clear = FRestore, FUpdate
+	case "rpm.tick":
+		set = FMeasureRpm
+	case "rpm.poll.end", "rpm.done":
+		clear = FMeasureRpm
+	case "mon.tick":
+		set = FSensorMon
+	case "mon.poll.end", "mon.done":
+		clear = FSensorMon
+	default:
+		return
+	}
+	g := goid()
+	var cur Flags
+	if w, ok := windows.Load(g); ok {
+		cur = w.(Flags)
+	}
+	windows.Store(g, (cur|set)&^clear)
+}
+
+// ResetWindows forgets all activity windows (a new world starts).
+func ResetWindows() { windows.Clear() }
 
 var exactFlags = map[string]Flags{
 	"controller.(*DefaultFanController).UpdateFanSpeed":                    FUpdate,
